@@ -22,6 +22,15 @@ pub const TOKENS: &[&[u8]] = &[
     b"<script",
     b"<style",
     b" c='",
+    // composite tokens: they put the tokenizer deep into the script sub-states at the cost of ONE item, so that the quick
+    // bound (4 items) reaches "escaped dash then '<'", "double escaped dash then other", "raw end tag name followed by a letter"
+    b"<script><!--",
+    b"<script><!--<script>",
+    b"</scriptx",
+    // byte order mark, foreign-content elements
+    b"\xef\xbb\xbf",
+    b"<svg>",
+    b"</svg>",
 ];
 
 pub const CONTEXTS: &[&str] = &["", "script", "style", "textarea", "title", "plaintext", "iframe", "noembed", "noframes", "noscript", "xmp", "div"];
